@@ -197,7 +197,7 @@ fn tables(cx: &mut Ctx, src: &sm::Src) {
         },
         None => cx.anchor_missing(rule, "consume_length"),
     }
-    if t.contains("pubfnformat_char(&self,ch:char)->String{self.format_string_with_precision(ch.to_string(),Some(&CFormatQuantity::Amount(1).into()),)}") {
+    if t.contains("pubfnformat_char(&self,ch:char)->String{self.format_string_with_precision(ch.to_string(),Some(&CFormatQuantity::Amount(1).into()))}") {
         cx.ok(rule, "format_char renders one character regardless of the specifier's precision");
     } else {
         cx.fail(rule, &format!("{}/format_char", rule), &src.rel, "format_char does not use the fixed precision 1: `%.0c` would drop the character");
@@ -209,7 +209,7 @@ fn parse_order(cx: &mut Ctx, src: &sm::Src) {
     cx.rule(rule, "CFormatSpec::parse reads mapping key, flags, width, precision, length modifier and conversion type in that order from the same iterator; the template splitters treat `%%` as a literal percent, flush the pending literal before a specifier and report an incomplete trailing `%` at index + 1");
     cx.floor(rule, 4);
     let Some(m) = src.method("CFormatSpec", "parse") else { return cx.anchor_missing(rule, "CFormatSpec::parse") };
-    let want = "{letmapping_key=parse_spec_mapping_key(iter)?;letflags=parse_flags(iter);letmin_field_width=parse_quantity(iter)?;letprecision=parse_precision(iter)?;consume_length(iter);let(format_type,format_char)=parse_format_type(iter)?;Ok(CFormatSpec{flags,format_char,format_type,mapping_key,min_field_width,precision,})}";
+    let want = "{letmapping_key=parse_spec_mapping_key(iter)?;letflags=parse_flags(iter);letmin_field_width=parse_quantity(iter)?;letprecision=parse_precision(iter)?;consume_length(iter);let(format_type,format_char)=parse_format_type(iter)?;Ok(CFormatSpec{flags,format_char,format_type,mapping_key,min_field_width,precision})}";
     if sm::tsc(&m.block) == want {
         cx.ok(rule, "mapping key, flags, width, precision, length, type — in this order");
     } else {
@@ -226,12 +226,12 @@ fn parse_order(cx: &mut Ctx, src: &sm::Src) {
             cx.fail(rule, &format!("{}/{}", rule, k), &src.rel, "`%%` is not turned into a literal percent");
         }
     }
-    if t.matches("returnErr(CFormatError{index:index+1,typ:CFormatErrorType::IncompleteFormat,})").count() == 2 {
+    if t.matches("returnErr(CFormatError{index:index+1,typ:CFormatErrorType::IncompleteFormat})").count() == 2 {
         cx.ok(rule, "a trailing `%` is IncompleteFormat at index + 1 (text and bytes)");
     } else {
         cx.fail(rule, &format!("{}/incomplete", rule), &src.rel, "a trailing `%` is not reported as IncompleteFormat at index + 1 in both splitters");
     }
-    if t.contains("matchchars.next().map(|x|x.1){Some('%')=>{},_=>returnErr((CFormatErrorType::MissingModuloSign,1)),}") {
+    if t.contains("matchchars.next().map(|x|x.1){Some('%')=>{},_=>returnErr((CFormatErrorType::MissingModuloSign,1))}") {
         cx.ok(rule, "CFormatSpec::from_str requires the leading `%`");
     } else {
         cx.fail(rule, &format!("{}/modulo", rule), &src.rel, "CFormatSpec::from_str does not require the leading `%`");
@@ -245,9 +245,9 @@ fn padding(cx: &mut Ctx, src: &sm::Src) {
     let t = sm::tsx(&src.file);
     let checks = [
         ("fill-side", "if!fill_string.is_empty(){ifself.flags.contains(CConversionFlags::LEFT_ADJUST){format!(\"{string}{fill_string}\")}else{format!(\"{fill_string}{string}\")}}else{string}", "fill_string: text then fill iff LEFT_ADJUST"),
-        ("fill-count", "letwidth=match&self.min_field_width{Some(CFormatQuantity::Amount(width))=>cmp::max(width,&num_chars),_=>&num_chars,};letfill_chars_needed=width.saturating_sub(num_chars);", "fill count = max(width, chars) - chars with chars counted in characters (+ prefix)"),
-        ("zero-pad-number", "ifself.flags.contains(CConversionFlags::ZERO_PAD){letfill_char=if!self.flags.contains(CConversionFlags::LEFT_ADJUST){'0'}else{' '};letsigned_prefix=format!(\"{sign_string}{prefix}\");format!(\"{}{}\",signed_prefix,self.fill_string(padded_magnitude_string,fill_char,Some(signed_prefix.chars().count()),),)}", "format_number: sign+prefix first, counted in the width, '-' overrides '0'"),
-        ("zero-pad-float", "ifself.flags.contains(CConversionFlags::ZERO_PAD){letfill_char=if!self.flags.contains(CConversionFlags::LEFT_ADJUST){'0'}else{' '};format!(\"{}{}\",sign_string,self.fill_string(magnitude_string,fill_char,Some(sign_string.chars().count()),))}", "format_float: sign first, counted in the width, '-' overrides '0'"),
+        ("fill-count", "letwidth=match&self.min_field_width{Some(CFormatQuantity::Amount(width))=>cmp::max(width,&num_chars),_=>&num_chars};letfill_chars_needed=width.saturating_sub(num_chars);", "fill count = max(width, chars) - chars with chars counted in characters (+ prefix)"),
+        ("zero-pad-number", "ifself.flags.contains(CConversionFlags::ZERO_PAD){letfill_char=if!self.flags.contains(CConversionFlags::LEFT_ADJUST){'0'}else{' '};letsigned_prefix=format!(\"{sign_string}{prefix}\");format!(\"{}{}\",signed_prefix,self.fill_string(padded_magnitude_string,fill_char,Some(signed_prefix.chars().count())))}", "format_number: sign+prefix first, counted in the width, '-' overrides '0'"),
+        ("zero-pad-float", "ifself.flags.contains(CConversionFlags::ZERO_PAD){letfill_char=if!self.flags.contains(CConversionFlags::LEFT_ADJUST){'0'}else{' '};format!(\"{}{}\",sign_string,self.fill_string(magnitude_string,fill_char,Some(sign_string.chars().count())))}", "format_float: sign first, counted in the width, '-' overrides '0'"),
         ("precision-truncate", "Some(CFormatPrecision::Quantity(CFormatQuantity::Amount(precision)))if*precision<string.chars().count()=>string.chars().take(*precision).collect::<String>(),", "string precision truncates by characters"),
         ("precision-zero-fill", "letpadded_magnitude_string=self.fill_string_with_precision(magnitude_string,'0');", "integer precision = minimum digits (zero fill on the left)"),
     ];
